@@ -77,6 +77,21 @@ func TestVerif_C13_ZA(t *testing.T) {
 		}
 		if !bytes.Equal(za, want) {
 			vt.Fail(t, rec, "C13:za:value", "ZA mismatch for id of %d bytes\n got %x\nwant %x", n, za, want)
+			return
+		}
+		// the caller reuses its id buffer for the next identity (same length, other contents), then asks again — first with the reused
+		// buffer, then with a fresh slice holding the same bytes
+		if n > 0 {
+			idBuf := placed[0]
+			copy(idBuf, gen.RandBytes(r, n))
+			want2, _ := sm2ref.ZA(idBuf, px, py)
+			for _, arg := range [][]byte{idBuf, append([]byte(nil), idBuf...)} {
+				za2, err2 := sm2.ZA(arg, px, py)
+				if err2 != nil || !bytes.Equal(za2, want2) {
+					vt.Fail(t, rec, "C13:za:stale-after-buffer-reuse", "ZA after the caller overwrote its id buffer with another identity of the same length: result belongs to the OLD identity (or is wrong)\nold id %x\nnew id %x\n got %x\nwant %x", id, idBuf, za2, want2)
+					return
+				}
+			}
 		}
 	})
 }
@@ -124,7 +139,11 @@ func TestVerif_C13_Wrappers(t *testing.T) {
 		var e0, e1, e2 error
 		if p := vt.Catch(func() {
 			r0, s0, e0 = sm2.SignHashed(newStream(stream), denc, e)
-			r1, s1, e1 = sm2.SignZa(newStream(stream), denc, za, msg)
+			plz, changedZ := recordLayout(t, "signzarec", za, denc, msg)
+			r1, s1, e1 = sm2.SignZa(newStream(stream), plz[1], plz[0], plz[2])
+			if ch := changedZ(); ch != "" {
+				panic("SignZa wrote into the caller's record: " + ch)
+			}
 			// the id/message-level call gets its arguments as sub-slices of one in-place record
 			pl, changed := recordLayout(t, "signrec", id, px, py, denc, msg)
 			r2, s2, e2 = sm2.Sign(pl[0], pl[1], pl[2], newStream(stream), pl[3], pl[4])
@@ -171,7 +190,11 @@ func TestVerif_C13_Wrappers(t *testing.T) {
 		var vh, vz, vf bool
 		if p := vt.Catch(func() {
 			vh, _ = sm2.VerifyHashed(px, py, ev, r0, s0)
-			vz, _ = sm2.VerifyZa(px, py, za2, msg2, r0, s0)
+			plv, changedV := recordLayout(t, "verifyzarec", za2, px, py, msg2, r0, s0)
+			vz, _ = sm2.VerifyZa(plv[1], plv[2], plv[0], plv[3], plv[4], plv[5])
+			if ch := changedV(); ch != "" {
+				panic("VerifyZa wrote into the caller's record: " + ch)
+			}
 			pl, changed := recordLayout(t, "verifyrec", id2, px, py, msg2, r0, s0)
 			vf, _ = sm2.Verify(pl[0], pl[1], pl[2], pl[3], pl[4], pl[5])
 			if ch := changed(); ch != "" {
